@@ -7,7 +7,8 @@ node and every right-going link exactly once. GFA: every two-node graph with up 
 adjacencies — links between the nodes on any sides, circular self-links, left and right hairpins — must give one S line
 per node and each adjacency exactly once with correct orientation characters and a K-1 overlap, for both write_gfa and
 to_gfa_with_tags. Persistence: Serialize/Deserialize are derived for all nine persisted types and the derived serializer
-writes every declared field."""
+writes every declared field.
+Added later: OpenOptions sinks must truncate, a writer whose write() accepts one byte per call, serde impls that buffer in Content cannot carry 128-bit k-mers."""
 from .. import dt_export, lemmas
 
 ASSUMPTIONS = ["value equality after a serde round trip is serde's contract for derived impls (trusted)", "keys of the caller-supplied `rest` object are quote/backslash-free (they are interpolated unescaped)",
